@@ -2,7 +2,7 @@ SPEC = {
     "id": "C20",
     "level": "other",
     "sidecars": ["utils", "format_url"],
-    "functions": ["ural/utils.py:pathsplit", "ural/utils.py:add_query_argument", "ural/utils.py:safe_urlsplit", "ural/utils.py:urlpathsplit", "ural/format_url.py:format_query_argument", "ural/format_url.py:URLFormatter.__init__",
+    "functions": ["ural/utils.py:pathsplit", "ural/utils.py:add_query_argument", "ural/utils.py:get_query_argument", "ural/utils.py:safe_qsl_iter", "ural/utils.py:safe_urlsplit", "ural/utils.py:urlpathsplit", "ural/format_url.py:format_query_argument", "ural/format_url.py:URLFormatter.__init__",
                   "ural/format_url.py:URLFormatter.format", "ural/format_url.py:URLFormatter.__call__", "ural/ensure_protocol.py:ensure_protocol", "ural/force_protocol.py:force_protocol", "ural/strip_protocol.py:strip_protocol"],
     "function_sidecars": {"ural/ensure_protocol.py:ensure_protocol": ["protocol_ensure"], "ural/force_protocol.py:force_protocol": ["protocol_force"],
                           "ural/strip_protocol.py:strip_protocol": ["protocol_strip"]},
